@@ -77,8 +77,8 @@ Sys(p, n, a, b, c, ret, errno, s, allocs) ==
   LET t == IF p = 0 THEN ptab ELSE ctab
       t2 ==
         CASE n = "pipe" /\ ret = 0 ->
-               With(With(t, a, [ino |-> c, acc |-> 0, pos |-> 0, cx |-> FALSE]),
-                    b, [ino |-> c, acc |-> 1, pos |-> 0, cx |-> FALSE])
+               With(With(t, a, [ino |-> c, acc |-> 0, pos |-> 0, cx |-> (s = "cx")]),      \* "cx": pipe2(O_CLOEXEC)
+                    b, [ino |-> c, acc |-> 1, pos |-> 0, cx |-> (s = "cx")])
           [] n = "fcntl" /\ b = F_SETFD /\ ret = 0 /\ a \in DOMAIN t ->
                [t EXCEPT ![a].cx = (c % 2 = 1)]
           [] n = "close" /\ ret = 0 -> Without(t, a)
